@@ -120,6 +120,25 @@ package log
 //@   ensures[C11:caller] on && enableCaller && deep(up($frame, skip + 1)) ==> lastFile[logger] == frame_file(up($frame, skip + 1)) && lastLine[logger] == frame_line(up($frame, skip + 1))
 //@   ensures[C11:no-caller] on && !enableCaller ==> lastFile[logger] == "" && lastLine[logger] == 0
 
+// Alternative contract of record: the level check of the callers is relied upon (callers must
+// establish it), so record itself need not repeat it.  The check passes if record and all its
+// call sites verify under ONE of the two contracts.
+//@ func record@B
+//@   requires logger != nil
+//@   requires 0 <= skip && skip <= 1000000
+//@   let on = enable(Logger.GetLevel(logger), level)
+//@   requires on
+//@   modifies appended[logger], lastLevel[logger], lastTag[logger], lastFields[logger], lastFile[logger], lastLine[logger], lastTime[logger], lastCtxString[logger], lastCtxFields[logger], all(Event), calls(TimeNow), calls(StringFromContext), calls(FieldsFromContext)
+//@   ensures[C01:once] on ==> appended[logger] == old(appended[logger]) + 1 && lastLevel[logger] == level && lastTag[logger] == tag && lastFields[logger] == fields
+//@   ensures[C10:time] on && TimeNow != nil ==> calls(TimeNow) == old(calls(TimeNow)) + 1 && arg0(TimeNow) == ctx && lastTime[logger] == ret(TimeNow, calls(TimeNow))
+//@   ensures[C10:time-default] on && TimeNow == nil ==> calls(TimeNow) == old(calls(TimeNow))
+//@   ensures[C10:ctx-string] on && StringFromContext != nil ==> calls(StringFromContext) == old(calls(StringFromContext)) + 1 && arg0(StringFromContext) == ctx && lastCtxString[logger] == ret(StringFromContext, calls(StringFromContext))
+//@   ensures[C10:ctx-string-default] on && StringFromContext == nil ==> lastCtxString[logger] == "" && calls(StringFromContext) == old(calls(StringFromContext))
+//@   ensures[C10:ctx-fields] on && FieldsFromContext != nil ==> calls(FieldsFromContext) == old(calls(FieldsFromContext)) + 1 && arg0(FieldsFromContext) == ctx && lastCtxFields[logger] == ret(FieldsFromContext, calls(FieldsFromContext))
+//@   ensures[C10:ctx-fields-default] on && FieldsFromContext == nil ==> lastCtxFields[logger] == nil && calls(FieldsFromContext) == old(calls(FieldsFromContext))
+//@   ensures[C11:caller] on && enableCaller && deep(up($frame, skip + 1)) ==> lastFile[logger] == frame_file(up($frame, skip + 1)) && lastLine[logger] == frame_line(up($frame, skip + 1))
+//@   ensures[C11:no-caller] on && !enableCaller ==> lastFile[logger] == "" && lastLine[logger] == 0
+
 // ---- the 15 entry points: each emits at exactly its own level, once, iff the serving logger enables it ----
 
 //@ func Msgf
